@@ -10,14 +10,16 @@ std::vector<std::string> glue_fwd_wrapper_routes();
 
 namespace {
 
-const char* const IDENTS[] = {"a", "ab", "abc", "b", "ba", "ns1", "ns10", "ns1_x", "Dog", "Do", "Dog2", "x", "x_y", "Animal", "An", "detail", "det", "_impl", "_q1", "c", "zz", "stdx", "yorelx", "std_", "voidx", "intr", "T"};
+// (identifiers starting with '_' and the names std / yorel are only used below the first level)
+const char* const IDENTS[] = {"a", "ab", "abc", "b", "ba", "ns1", "ns10", "ns1_x", "Dog", "Do", "Dog2", "x", "x_y", "Animal", "An", "detail", "det", "_impl", "_q1", "c", "zz", "stdx", "yorelx", "std_", "voidx", "intr", "T",
+                              "nonstd", "mystd", "xyorel", "std", "yorel", "v1", "v10", "detail2", "c7"};
 constexpr int NIDENT = sizeof(IDENTS) / sizeof(IDENTS[0]);
 
 std::string ident(Rng& rng, bool first_component) {
     for (;;) {
         const char* s = IDENTS[rng.below(NIDENT)];
-        if (first_component && s[0] == '_')
-            continue; // reserved in the global namespace
+        if (first_component && (s[0] == '_' || !strcmp(s, "std") || !strcmp(s, "yorel")))
+            continue; // reserved in the global namespace / the library's own
         return s;
     }
 }
@@ -50,7 +52,7 @@ void gen_names(Rng& rng, Scope& root, int count, std::set<std::string>& out) {
         if (!ok)
             continue;
         std::string id = ident(rng, depth == 0);
-        if (sc->ns.count(id))
+        if (sc->ns.count(id) || id == "std" || id == "yorel")
             continue;
         if (depth == 0 && (id == "std" || id == "yorel"))
             continue;
@@ -59,52 +61,96 @@ void gen_names(Rng& rng, Scope& root, int count, std::set<std::string>& out) {
     }
 }
 
-// parse the written text: returns false when it is not balanced / well formed
+// parse the written text (token based, layout does not matter): a sequence of
+//   namespace A[::B...] { ... }   and   class|struct X;
+// returns false when it is not balanced / well formed
 bool parse_decls(const std::string& text, std::multiset<std::string>& declared, std::string& why) {
-    std::vector<std::string> stack;
-    std::istringstream is(text);
-    std::string line;
-    auto is_ident = [](const std::string& s) {
-        if (s.empty() || isdigit((unsigned char)s[0]))
+    std::vector<std::string> toks;
+    for (size_t i = 0; i < text.size();) {
+        unsigned char ch = (unsigned char)text[i];
+        if (isspace(ch)) {
+            ++i;
+        } else if (isalnum(ch) || ch == '_') {
+            size_t j = i;
+            while (j < text.size() && (isalnum((unsigned char)text[j]) || text[j] == '_'))
+                ++j;
+            toks.push_back(text.substr(i, j - i));
+            i = j;
+        } else if (ch == ':' && i + 1 < text.size() && text[i + 1] == ':') {
+            toks.push_back("::");
+            i += 2;
+        } else if (ch == '{' || ch == '}' || ch == ';') {
+            toks.push_back(std::string(1, (char)ch));
+            ++i;
+        } else if (ch == '/' && i + 1 < text.size() && text[i + 1] == '/') {
+            while (i < text.size() && text[i] != '\n')
+                ++i;
+        } else {
+            why = std::string("unexpected character '") + (char)ch + "'";
             return false;
-        for (char c : s)
-            if (!(isalnum((unsigned char)c) || c == '_'))
+        }
+    }
+    auto is_ident = [](const std::string& s) {
+        static const char* kw[] = {"namespace", "class", "struct", "const", "volatile", "int", "void", "char", "bool", "long", "short", "double", "float", "unsigned", "signed", "decltype", "nullptr", "wchar_t", "char16_t", "char32_t", "char8_t", "enum", "union", "typename", "template"};
+        if (s.empty() || isdigit((unsigned char)s[0]) || s == "::" || s == "{" || s == "}" || s == ";")
+            return false;
+        for (auto k : kw)
+            if (s == k)
                 return false;
         return true;
     };
-    while (std::getline(is, line)) {
-        if (line.empty())
-            continue;
-        if (line.compare(0, 10, "namespace ") == 0 && line.size() > 12 && line.compare(line.size() - 2, 2, " {") == 0) {
-            std::string id = line.substr(10, line.size() - 12);
-            if (!is_ident(id)) {
-                why = "bad namespace name in: " + line;
+    std::vector<size_t> depth_stack; // number of names each open brace pushed
+    std::vector<std::string> stack;
+    size_t i = 0;
+    while (i < toks.size()) {
+        if (toks[i] == "namespace") {
+            size_t pushed = 0;
+            ++i;
+            while (true) {
+                if (i >= toks.size() || !is_ident(toks[i])) {
+                    why = "namespace without a proper name" + (i < toks.size() ? " ('" + toks[i] + "')" : std::string());
+                    return false;
+                }
+                stack.push_back(toks[i++]);
+                ++pushed;
+                if (i < toks.size() && toks[i] == "::") {
+                    ++i;
+                    continue;
+                }
+                break;
+            }
+            if (i >= toks.size() || toks[i] != "{") {
+                why = "namespace name not followed by '{'";
                 return false;
             }
-            stack.push_back(id);
-        } else if (line.compare(0, 6, "class ") == 0 && line.back() == ';') {
-            std::string id = line.substr(6, line.size() - 7);
-            if (!is_ident(id)) {
-                why = "bad class name in: " + line;
+            ++i;
+            depth_stack.push_back(pushed);
+        } else if (toks[i] == "class" || toks[i] == "struct") {
+            if (i + 2 >= toks.size() + 0 || !is_ident(toks[i + 1]) || toks[i + 2] != ";") {
+                why = "malformed class declaration" + (i + 1 < toks.size() ? " ('" + toks[i + 1] + "')" : std::string());
                 return false;
             }
             std::string q;
             for (auto& s : stack)
                 q += s + "::";
-            declared.insert(q + id);
-        } else if (line == "}") {
-            if (stack.empty()) {
+            declared.insert(q + toks[i + 1]);
+            i += 3;
+        } else if (toks[i] == "}") {
+            if (depth_stack.empty()) {
                 why = "closing brace without open namespace";
                 return false;
             }
-            stack.pop_back();
+            for (size_t k = 0; k < depth_stack.back(); ++k)
+                stack.pop_back();
+            depth_stack.pop_back();
+            ++i;
         } else {
-            why = "unexpected line: " + line;
+            why = "unexpected token '" + toks[i] + "'";
             return false;
         }
     }
-    if (!stack.empty()) {
-        why = std::to_string(stack.size()) + " namespace(s) left open";
+    if (!depth_stack.empty()) {
+        why = std::to_string(depth_stack.size()) + " namespace(s) left open";
         return false;
     }
     return true;
